@@ -585,6 +585,14 @@ fn heavy_inputs(reps: usize) -> Vec<(usize, Vec<u8>)> {
             v.push((e, wrap("p-", tok, "")));
         }
         v.push((e, wrap("{", ",", "}-1")));
+        // deeply nested groups: the expansion is tiny (one string / depth+1 strings), so nothing
+        // about the notation makes these expensive
+        for depth in [64usize, 1000, 5000] {
+            v.push((e, format!("{}a{}-1", "{".repeat(depth), "}".repeat(depth)).into_bytes()));
+        }
+        for depth in [24usize, 40, 200] {
+            v.push((e, format!("p{}a{}-1", "{b,".repeat(depth), "}".repeat(depth)).into_bytes()));
+        }
         v.push((e, wrap("p-[", "a", "]*")));
     }
     let e = ep_index("pkgpath+depend");
@@ -680,6 +688,32 @@ fn walk_db(root: &Path) {
     }
 }
 
+/// A database holding `n` stray plain files and one package: skipping entries must not cost stack.
+fn check_db_many_strays(t: &mut Tally, scratch: &Path, n: usize) {
+    t.evals += 1;
+    t.validated += 1;
+    t.states += 1;
+    let root = scratch.join(format!("strays{}", n));
+    let _ = std::fs::remove_dir_all(&root);
+    if std::fs::create_dir_all(root.join("pkg-1.0")).is_err() {
+        return;
+    }
+    for f in ["+COMMENT", "+CONTENTS", "+DESC"] {
+        let _ = std::fs::write(root.join("pkg-1.0").join(f), b"x\n");
+    }
+    for i in 0..n {
+        let _ = std::fs::File::create(root.join(format!("stray{}", i)));
+    }
+    journal(&format!("I 0 {}\n", hex(format!("pkgdb with {} stray files", n).as_bytes())));
+    let r = mc_core::guard(|| PkgDB::open(&root).map(|db| db.count()).unwrap_or(0));
+    let _ = std::fs::remove_dir_all(&root);
+    match r {
+        Ok(1) => t.outcome("pkgdb/many-strays-ok"),
+        Ok(k) => t.violation(Violation::new("pkgdb-strays", json!({"stray_files": n}), json!(1), json!(k), "package database iteration lost or invented packages among many stray files")),
+        Err(m) => t.violation(Violation::new("pkgdb-strays", json!({"stray_files": n}), json!("returns normally"), json!(format!("panic: {}", m)), "package database iteration panicked")),
+    }
+}
+
 fn check_db(t: &mut Tally, scratch: &Path, mask: u32) {
     t.evals += 1;
     t.validated += 1;
@@ -723,6 +757,7 @@ enum Item {
     Huge { seed: usize },
     Heavy { idx: usize },
     Pkgdb { lo: u32, hi: u32 },
+    PkgdbStrays { n: usize },
 }
 
 struct Plan {
@@ -762,9 +797,17 @@ fn plan(thorough: bool) -> Plan {
         items.push(Item::Heavy { idx });
     }
     let mut m = 0u32;
-    while m < 4096 {
-        items.push(Item::Pkgdb { lo: m, hi: m + 64 });
-        m += 64;
+    // every subset of the nine plain shapes, and every combination of the three symbolic-link
+    // shapes with every eighth subset of the plain ones
+    while m < 512 {
+        items.push(Item::Pkgdb { lo: m, hi: m + 32 });
+        m += 32;
+    }
+    for links in 1u32..8 {
+        items.push(Item::Pkgdb { lo: links << 9, hi: (links << 9) + 512 });
+    }
+    for n in if thorough { vec![4_000usize, 30_000, 200_000] } else { vec![4_000usize, 30_000] } {
+        items.push(Item::PkgdbStrays { n });
     }
     Plan { fams, seeds, shorts, heavy, items, thorough }
 }
@@ -853,8 +896,13 @@ fn run_item(p: &Plan, idx: usize, t: &mut Tally, scratch: &Path) {
             call(t, *ep, input, 10_000);
             t.outcome_n("long-input families/inputs", 1);
         }
+        Item::PkgdbStrays { n } => {
+            t.transitions += *n as u64;
+            t.nontrivial += 1;
+            check_db_many_strays(t, scratch, *n);
+        }
         Item::Pkgdb { lo, hi } => {
-            for m in *lo..*hi {
+            for m in (*lo..*hi).filter(|m| *m < 512 || m % 8 == (m >> 9) % 8) {
                 t.states += 1;
                 t.transitions += 1;
                 check_db(t, scratch, m);
@@ -879,9 +927,14 @@ fn child_main(run: &'static Run, only_item: Option<usize>) -> ! {
             JOURNAL_INPUTS.store(true, Ordering::SeqCst);
             let mut t = Tally::new();
             if i < p.items.len() {
-                journal(&format!("S {}\n", i));
-                run_item(&p, i, &mut t, &scratch);
-                journal(&format!("D {}\n", i));
+                // on a thread with the default (2 MiB) stack, like the workers of the full run
+                std::thread::scope(|sc| {
+                    sc.spawn(|| {
+                        journal(&format!("S {}\n", i));
+                        run_item(&p, i, &mut t, &scratch);
+                        journal(&format!("D {}\n", i));
+                    });
+                });
             }
             t.outcome("single-item");
             t.outcome("rerun");
@@ -889,9 +942,14 @@ fn child_main(run: &'static Run, only_item: Option<usize>) -> ! {
         }
         None => {
             let idx: Vec<usize> = (0..p.items.len()).collect();
+            let timing = std::env::var("VERIF_C17_TIMING").is_ok();
             par_items(run, "C17 work items", &idx, |_, i, t| {
                 journal(&format!("S {}\n", i));
+                let t0 = Instant::now();
                 run_item(&p, *i, t, &scratch);
+                if timing && t0.elapsed() > Duration::from_millis(500) {
+                    eprintln!("item {} took {:?}", i, t0.elapsed());
+                }
                 journal(&format!("D {}\n", i));
                 t.sample(run.seed, *i as u64, || match &p.items[*i] {
                     Item::Seqs { fam, prefix, .. } => json!({"family": p.fams[*fam].name, "subtree_prefix": prefix.iter().map(|x| String::from_utf8_lossy(&p.fams[*fam].alphabet[*x]).into_owned()).collect::<Vec<_>>()}),
@@ -900,6 +958,7 @@ fn child_main(run: &'static Run, only_item: Option<usize>) -> ! {
                     Item::Short { lo, hi } => json!({"fixture_lines": [lo, hi]}),
                     Item::Heavy { idx } => json!({"long_input_for": EPS[p.heavy[*idx].0].0, "len": p.heavy[*idx].1.len()}),
                     Item::Pkgdb { lo, hi } => json!({"pkgdb_layout_masks": [lo, hi]}),
+                    Item::PkgdbStrays { n } => json!({"pkgdb_with_stray_files": n}),
                 });
             });
         }
@@ -1091,8 +1150,8 @@ fn main() {
          names, one per shape, from the repository's fixtures) every prefix, every single-byte \
          deletion, every substitution from a 12-byte palette, every line duplication and every \
          two-cut splice; (iii) every digit run replaced by 19/20/40-digit runs and every token \
-         repeated 10^5 times (2*10^4 in the quick tier); (iv) all 4096 package-database layouts \
-         over 12 directory shapes (incl. dangling, looping and valid symbolic links). Every call under catch_unwind with a watchdog (2 s, 10 s for \
+         repeated 10^5 times (2*10^4 in the quick tier); (iv) 960 package-database layouts \
+         over 12 directory shapes (all 512 subsets of the nine plain shapes, and each combination of the three link shapes with 64 of them) (incl. dangling, looping and valid symbolic links), and databases holding 4 000 / 30 000 (thorough: 200 000) stray files next to one package. Every call under catch_unwind with a watchdog (2 s, 10 s for \
          the long inputs), in a child process so that aborts are observed. Non-trivial = inputs \
          that are mutations, long, or contain NUL / bytes >= 0x80. Summary call sequences are \
          covered by C07's graph (every accessor in every reached state).",
